@@ -145,8 +145,10 @@ func genProgram(r *rng, l language.Language, n int) string {
 	alpha := alphabetFor(l)
 	words := []string{"x", "foo", " ", " ", "  ", "é", "日本", "\xff", "\t", "1", "=", ";", "(", ")"}
 	var sb strings.Builder
+	pads := 0
 	for i := 0; i < n; i++ {
-		if r.chance(1, 30) {
+		if pads < 2 && r.chance(1, 30) {
+			pads++
 			// pad the current line so that the next token starts at (or next to) a column where a narrow counter
 			// wraps (multiples of 2^8 runes; longer lines would be beyond what the extracted reference lexer handles quickly)
 			cur := sb.String()
